@@ -86,7 +86,15 @@ def data(case):
     for i in range(case["n_apply"]):
         if case["copy_mask"][i % len(case["copy_mask"])]:
             Xap[i] = Xtr[i % ntr]
-    if case.get("int_panel"):
+    if kind == "plateau":
+        # runs of missing values of instance-specific position and length (what the finder reports)
+        for A in (Xtr, Xap):
+            for i in range(len(A)):
+                a0 = 1 + (3 * i + case["seed"]) % 5
+                A[i, 0, a0: a0 + 2 + i % 3] = np.nan
+                if i % 2:
+                    A[i, 0, a0 + 6: a0 + 8] = np.nan
+    if case.get("int_panel") and kind != "plateau":
         # integer-valued observations stored as int64 (counts)
         Xtr = np.round(Xtr * 3).astype("int64")
         Xap = np.round(Xap * 3).astype("int64")
@@ -270,7 +278,7 @@ def oracle(case, ctx):
 @st.composite
 def cases(draw, family):
     if family == "transformer":
-        kind = draw(st.sampled_from([k for k in panelpool.PANEL_TRANSFORMERS if k != "plateau"]))
+        kind = draw(st.sampled_from(list(panelpool.PANEL_TRANSFORMERS)))
         spec = {"kind": kind, "random_state": draw(st.integers(0, 50))}
         spec["num_intervals"] = draw(st.integers(1, 7))
         spec["n_intervals"] = draw(st.integers(1, 4))
@@ -363,7 +371,7 @@ def enum_every_kind(tier):
 
     base = {"seed": 4321, "n_train": 8, "n_apply": 5, "c": 2, "t": 20, "dup": True, "copy_mask": [True, False, False], "label_kind": "str",
             "perm": [3, 0, 4, 1, 2, 5], "single": 2, "subset": [4, 1], "unequal": None, "int_panel": False}
-    kinds = [("transformer", k) for k in panelpool.PANEL_TRANSFORMERS if k != "plateau"] + [("estimator", k) for k in panelpool.CLASSIFIERS + ("tsfr",)]
+    kinds = [("transformer", k) for k in panelpool.PANEL_TRANSFORMERS] + [("estimator", k) for k in panelpool.CLASSIFIERS + ("tsfr",)]
     for (fam, k), cont, labels, prefit in itertools.product(kinds, ["nested", "numpy3d"], [None, "shuffled", "cell_origin"], [False, True]):
         spec = {"kind": k, "random_state": 3, "n_columns": 2, "num_intervals": 3, "n_intervals": 2, "intervals": 3, "window_length": 4,
                 "length": 9, "num_kernels": 6}
